@@ -8,6 +8,11 @@
             entry checks) run by the compiled driver on the same op line; compared on: out-of-bounds?, return code, handler
             events, number of comparator calls, the EXACT sequence of comparator calls, the final arrangement (every whole
             element where the model puts it), bsearch result / errno.
+  pntz      harness/hpntz.c #includes src/misc/qsort_s.c, so the static helper pntz() is the compiler's: it is run on a fixed
+            list of two-word vectors (one second bit at every distance 1..127, {1,1} {1,3} {1,0} {2,..} ...) and a seeded
+            random stream, compared with the model's pntz for `current` (a difference is a correspondence break) and judged
+            by the function's own contract (distance from bit 0 to the next set bit, 0 if none).  This is the function-level
+            replay of the witness of Props/C16 qsort_safe_witness, whose whole-call version needs 5.5e13 elements.
   oracle    the property, written from its text and the doc comments (not from the model): multiset of whole elements
             preserved, adjacent keys ordered under a consistent comparator, every comparator argument in range / aligned /
             right ctx, nothing outside the array touched, termination, documented return codes with exactly one handler
@@ -237,6 +242,36 @@ def gen_huge(tier):
     return out
 
 
+def gen_pntz(rng, tier):
+    """(lo, hi) words for the function-level replay of pntz(); the first entries are the witness of Props/C16 qsort_safe_witness"""
+    out = [(1, 1), (1, 3), (1, 0), (1, 2), (1, 1 << 63), (1, (1 << 64) - 1), (3, 0), (3, 1), (5, 7), ((1 << 33) + 1, 0), ((1 << 63) + 1, 0), ((1 << 63) + 1, 1),
+           (2, 1), (2, 0), (0, 1), (0, 0), (4, 3), ((1 << 64) - 1, (1 << 64) - 1)]
+    for t in range(1, 128):                                   # exactly one more bit, at every distance
+        v = 1 | (1 << t)
+        out.append((v & ((1 << 64) - 1), v >> 64))
+    for t in range(1, 128):                                   # everything from distance t upwards set
+        v = 1 | (((1 << 128) - 1) >> t << t)
+        out.append((v & ((1 << 64) - 1), v >> 64))
+    for _ in range(200 if tier == "quick" else 5000):
+        t = rng.randrange(1, 128)
+        v = 1 | (1 << t) | (rng.getrandbits(128) >> t << t)
+        out.append((v & ((1 << 64) - 1), v >> 64))
+    for _ in range(50 if tier == "quick" else 1000):          # arbitrary words, bit 0 clear included: model <-> C only
+        out.append((rng.getrandbits(64) >> rng.randrange(64), rng.getrandbits(64) >> rng.randrange(65)))
+    return out
+
+
+def pntz_contract(lo, hi):
+    """what the callers of pntz() rely on (comment-free static helper: read off trinkle / the final loop of qsort_musl, which shift p by the
+    answer and add it to pshift): bit 0 set -> distance to the next set bit of p[1]:p[0], 0 if there is none; None: no contract"""
+    if not lo & 1:
+        return None
+    v = ((hi << 64) | lo) >> 1
+    if v == 0:
+        return 0
+    return (v & -v).bit_length()
+
+
 def gen_cyc(rng, tier):
     """driver self-check: byte-level cycle (256-byte chunks) against the element rotation"""
     out = []
@@ -429,13 +464,15 @@ def run_parallel(cmd, lines, workers=4, timeout=3000):
 
 
 def fx_override():
+    """VERIF_C16_FX = three bits, order ctz64, ovf, pntzGap (Models/Sort.lean `Fixes`); anything else: the model's `current`"""
     v = os.environ.get("VERIF_C16_FX", "")
-    return (" fx=" + v) if re.fullmatch(r"[01]{2}", v) else ""
+    return (" fx=" + v) if re.fullmatch(r"[01]{3}", v) else ""
 
 
 def build_harness():
     L = buildlib.build(slack=True)
-    return buildlib.build_harness(L, os.path.join(VERIF, "harness", "hsort.c"), os.path.join(L["dir"], "hsort"))
+    hp = buildlib.build_harness(L, os.path.join(VERIF, "harness", "hpntz.c"), os.path.join(L["dir"], "hpntz"), extra=L["cflags"])
+    return buildlib.build_harness(L, os.path.join(VERIF, "harness", "hsort.c"), os.path.join(L["dir"], "hsort")), hp
 
 
 def features(c, dc):
@@ -463,14 +500,15 @@ def run(tier, seed, replay=None):
     for name, val in (("RSIZE_MAX_MEM", RSIZE_MAX_MEM), ("ESNULLP", ESNULLP), ("ESLEMAX", ESLEMAX), ("ESNOSPC", ESNOSPC)):
         if not re.search(r"def %s : Nat := %d\b" % (name, val), consts):
             res.mismatch.append(dict(kind="correspondence", property=PID, fn="constants", what="%s is no longer %d in the tree's headers" % (name, val)))
-    hbin = build_harness()
+    hbin, pbin = build_harness()
 
     if replay:
         rep = json.load(open(replay))
         if "case" not in rep:
             print(json.dumps(rep, indent=1)[:4000]); return 0
         ln = rep["case"]
-        c, _, _ = proto.run_lines([hbin], [ln], timeout=900)
+        c, _, _ = proto.run_lines([pbin if " pntz=1" in ln else hbin], [ln], timeout=900)
+        c.pop("info", None)
         m, _, _ = proto.run_lines([orch.MODEL_BIN], [ln + fx], timeout=900)
         short = lambda d: {k: (v if len(str(v)) < 300 else str(v)[:300] + "...") for k, v in d.items() if k != "id"}
         print("case :", ln[:600])
@@ -506,6 +544,42 @@ def run(tier, seed, replay=None):
         res.extra["byte_level_cycle_selfcheck"] = dict(ops=len(cl), differing=len(badc))
         for b in badc[:3]:
             res.mismatch.append(dict(kind="correspondence", property=PID, fn="cycle", what="byte-level cycle model differs from the element rotation: " + b))
+    # function-level replay of the static helper pntz(): the compiler's code (harness/hpntz.c) vs the model's pntz vs its contract
+    pv = gen_pntz(rng, tier)
+    pl = ["id=%d pntz=1 lo=%d hi=%d" % (i, lo, hi) for i, (lo, hi) in enumerate(pv)]
+    pc, prc, perr = proto.run_lines([pbin], pl, timeout=120)
+    pm = proto.run_lines([orch.MODEL_BIN], [l + fx for l in pl], timeout=120)[0] if drv_ok else {}
+    pstat = dict(ops=len(pl), observed=0, model_differs=0, contract_failures=0, info=pc.get("info"))
+    if prc != 0 or sum(1 for i in range(len(pl)) if str(i) in pc) != len(pl):
+        res.mismatch.append(dict(kind="correspondence", property=PID, fn="pntz", what="harness/hpntz.c gave %d of %d answers (exit %s): %s" % (len(pc), len(pl), prc, perr[:200])))
+    for i, (lo, hi) in enumerate(pv):
+        dc, dm = pc.get(str(i)), pm.get(str(i))
+        if dc is None:
+            continue
+        pstat["observed"] += 1
+        res.count("fn", "pntz")
+        agree = None if dm is None or "r" not in dm else dm["r"] == dc["r"]
+        if agree is not None:
+            res.modelled.add("pntz")
+        want = pntz_contract(lo, hi)
+        bad = want is not None and int(dc["r"]) != want
+        if bad:
+            pstat["contract_failures"] += 1
+            sig = "qsort_s:pntz-wrong:distance=%s" % ("64" if want == 64 else "0" if want == 0 else "1-63" if want < 64 else "65-127")
+            detail = "pntz({%d, %d}) = %s, the next set bit is %s" % (lo, hi, dc["r"], ("%d away" % want) if want else "absent (0 expected)")
+            ent = next((e for e in known if orch.known_match(e, PID, sig, 1)), None)
+            if ent is not None and agree is not False:
+                kk = ent.get("id") or ent.get("sig") or ent.get("sig_re")
+                hh = res.known_hit.setdefault(kk, dict(ent, count=0, example=pl[i], sigs=set()))
+                hh["count"] += 1; hh["sigs"].add(sig)
+            else:
+                res.violations.append((sig, dict(kind="property-fails-on-implementation", property=PID, sig=sig, detail=detail, fn="pntz", case=pl[i], impl=dc, model=dm,
+                                                 model_predicts=agree, model_diff=None if agree is not False else "pntz: impl %s, model %s" % (dc["r"], dm.get("r")))))
+        if agree is False:
+            pstat["model_differs"] += 1
+            if not bad:
+                res.mismatch.append(dict(kind="correspondence", property=PID, fn="pntz", what="pntz({%d, %d}): compiled C %s, model %s" % (lo, hi, dc["r"], dm.get("r")), case=pl[i], impl=dc, model=dm))
+    res.extra["pntz_function_replay"] = pstat
     exh = {}
     for i, c in enumerate(cases):
         dc, dm = ci.get(str(i)), mi.get(str(i))
@@ -554,15 +628,16 @@ def run(tier, seed, replay=None):
         "qsort_s: every array over 3 keys for nmemb 0..%d under each of the 7 other comparators" % (5 if tier == "quick" else 6),
         "bsearch_s: every sorted array over 3 keys for nmemb 0..%d x every key 0..6" % (8 if tier == "quick" else 12)]
     res.extra["cases_by_origin"] = exh
-    res.extra["model_fixes"] = dict(order="ctz64,ovf", override=fx.strip() or None)
-    res.extra["sortedness_note"] = ("sortedness (total-preorder comparator), termination and bounds of the whole qsort_s call are proved in Lean for every array of up to leo 65 = 55555780070575 elements "
-                                    "(qsort_sorted_partial, qsort_safe_partial; unconditional for BOS_UNKNOWN: qsort_safe_bos_unknown); beyond that pntz mis-answers a distance of exactly 64 "
-                                    "(qsort_safe_witness); the oracle still checks order on every implementation observation")
+    res.extra["model_fixes"] = dict(order="ctz64,ovf,pntzGap", override=fx.strip() or None)
+    res.extra["sortedness_note"] = ("sortedness (total-preorder comparator), termination and bounds of the whole qsort_s call are proved in Lean for EVERY element count for the code with the repaired pntz "
+                                    "(qsort_safe, qsort_sorted; Fixes.pntzGap, fixes/qsort_s-pntz-gap-64.diff) and for up to leo 65 = 55555780070575 elements for the code without it "
+                                    "(qsort_sorted_partial, qsort_safe_partial; unconditional for BOS_UNKNOWN: qsort_safe_bos_unknown), where pntz mis-answers a distance of exactly 64 "
+                                    "(qsort_safe_witness, replayed on the compiled pntz by harness/hpntz.c on every run); the oracle still checks order on every implementation observation")
     trusted = ["Lean 4.33 kernel; axioms propext, Classical.choice, Quot.sound only (audited per theorem on every run)",
                "lean/SafeC/Models/Sort.lean: hand-written element-level model of musl smoothsort (sift/trinkle/cycle/shl/shr/pntz, lp[96], ar[113], two UInt64 words with x86 shift-count masking, "
                "__builtin_ctz on the low 32 bits compiled to tzcnt) and of the bsearch_s loop and both entry checks; tied to the C by this run's inputs only: exact comparator call sequence, final arrangement of whole elements, return/handler",
                "the byte-level cycle (256-byte tmp chunks) is a separate Lean program proved equal to the element rotation; the C's chunking is tied to it only through whole-element hashes of the result for every size 1..300 and around 256/512/768/1024",
-               "harness/hsort.c (guard pages on both sides, comparators that validate their arguments before dereferencing, SIGSEGV capture, per-call alarm), tools/p16.py (generators, oracle, comparison)",
+               "harness/hsort.c (guard pages on both sides, comparators that validate their arguments before dereferencing, SIGSEGV capture, per-call alarm), harness/hpntz.c (#includes qsort_s.c: the compiler's static pntz), tools/p16.py (generators, oracle, comparison)",
                "gcc -O0 build of the current tree, x86-64 with BMI1 (tzcnt), Linux page protection"]
     assumptions = ["the comparator does not modify the array and terminates",
                    "element positions are compared through a 64-bit whole-element hash (FNV-1a) before and after the call",
